@@ -104,8 +104,6 @@ func integerValued(expr Expression) bool {
 	switch e := expr.(type) {
 	case *NumberExpr:
 		return true
-	case *FieldReferenceExpr:
-		return integerValued(e.FieldExpr)
 	case *FunctionCallExpr:
 		fname, err := GetFuncNameFromExpr(e)
 		return err == nil && (fname == "int" || fname == "strlen" || fname == "len" || fname == "count")
@@ -326,7 +324,16 @@ func (o *ExpressionOptimizer) tryOptimizeAndOr(expr Expression) (Expression, boo
 
 func containsAggrFunc(expr Expression) bool {
 	found := false
+	// A field can be used by name several times, by fields that are used
+	// several times themselves: it is looked at once
+	seen := make(map[Expression]bool)
 	expr.Walk(func(e Expression) bool {
+		if ref, ok := e.(*FieldReferenceExpr); ok {
+			if seen[ref.FieldExpr] {
+				return false
+			}
+			seen[ref.FieldExpr] = true
+		}
 		found = found || IsAggrFuncExpr(e)
 		return !found
 	})
